@@ -767,6 +767,19 @@ func (db *SpecDB) LoadSpecFile(path string, trusted bool) error {
 					} else if len(rhs) != 3 {
 						return fail("bind name type := call key n")
 					}
+				case "callpre":
+					// callpre KEY N expr : obligation checked (and then assumed) in the state
+					// just before the n-th call of KEY (arguments are arg0..)
+					parts := strings.Fields(text)
+					if len(parts) < 3 {
+						return fail("callpre key n expr")
+					}
+					cl.Name = parts[0] + " " + parts[1]
+					e, err := ParseSpecExpr(strings.Join(parts[2:], " "))
+					if err != nil {
+						return fail("%v", err)
+					}
+					cl.Expr = e
 				case "assert":
 					// assert KEY N expr : obligation checked right after the n-th call of KEY
 					// (the call's arguments are arg0.., its results result / result0..)
